@@ -154,6 +154,45 @@ def F17():
     assert a == b, (a, b)  # compiled reader raised ValueError
 
 
+def F18():
+    a, b = _both("struct t { uint8 a; char b; };", b"\x01A")
+    assert a == b, (a, b)  # compiled reader raised NameError: name 'data' is not defined
+
+
+def F19():
+    a, b = _both("struct t { char a:4; uint8 b:4; };", b"\xab\xcd")
+    assert a == b, (a, b)  # compiled reader took b from the char unit
+
+
+def F20():
+    for comp in (True, False):
+        cs = cstruct()
+        cs.load("#define n 2\nstruct t { uint8 n; uint8 d[n]; };", compiled=comp)
+        assert cs.t(b"\x03abc").d == [97, 98, 99], cs.t(b"\x03abc")  # d had the frozen length 2
+
+
+def F21():
+    cs = cstruct()
+    cs.load("flag f : int8 { A = 1 }; struct t { f x; };")
+    o = cs.t(b"\xff")
+    assert o.x.value == -1 and o.dumps() == b"\xff", (o, o.dumps())  # value folded to <f.A: 1>, dumps b'\x01'
+
+
+def F22():
+    from dissect.cstruct import compiler
+    from dissect.cstruct.types.structure import Field
+
+    out = []
+    for comp in (True, False):
+        cs = cstruct()
+        st = cs._make_struct("t", [Field("a", cs.uint32, offset=4), Field("b", cs.uint16, offset=0)])
+        if comp:
+            st = compiler.compile(st)
+            assert st.__compiled__
+        out.append(repr(st(bytes(range(1, 9)))))
+    assert out[0] == out[1], out  # compiled reader raised EOFError
+
+
 ALL = {k: v for k, v in globals().items() if k.startswith("F") and callable(v)}
 
 if __name__ == "__main__":
